@@ -121,6 +121,97 @@ def load_known() -> List[dict]:
         return json.load(fh).get("findings", [])
 
 
+def _local_names(run: Run, short: str):
+    import ast as _ast
+    try:
+        for f in run.project.all_functions():
+            if f.short == short:
+                out = set()
+                for n in _ast.walk(f.node):
+                    if isinstance(n, _ast.Name) and isinstance(n.ctx, _ast.Store):
+                        out.add(n.id)
+                    elif isinstance(n, _ast.arg) and n.arg not in ("self", "cls"):
+                        out.add(n.arg)
+                return out
+    except Exception:  # noqa
+        return set()
+    return set()
+
+
+_IDENT = __import__("re").compile(r"(?<![\w.])([A-Za-z_]\w*)(?=\.)")
+
+
+def _abstract(construct: str, names) -> str:
+    """replace receiver identifiers (`name.` at the start of an attribute chain) that are locals of the function by `$`"""
+    return _IDENT.sub(lambda m: "$" if m.group(1) in names else m.group(1), construct)
+
+
+def _abstract_any(construct: str) -> str:
+    """... and the same with *every* receiver identifier abstracted (the listed spelling's local may no longer exist in the function)"""
+    return _IDENT.sub(lambda m: "$" if m.group(1) not in ("self", "cls", "np", "numpy", "Tensor") else m.group(1), construct)
+
+
+def _shape(construct: str) -> int:
+    return len(_IDENT.findall(construct))
+
+
+def triage(run: Run):
+    """(listed, unlisted): violations matched against the open known findings of the property / the rest"""
+    known = [k for k in load_known() if k.get("property") == run.prop and str(k.get("status", "")).startswith("open")]
+    violations = [o for o in run.obligations if not o.ok]
+    listed, unlisted = [], []
+    used_known = set()
+    for v in violations:
+        m = None
+        for i, k in enumerate(known):
+            if k.get("rule") == v.rule and k.get("function") == v.function and k.get("construct") == v.construct:
+                m = i
+                break
+        if m is None:
+            # a finding is identified by (rule, function, construct); constructs may spell a *local variable* of that function
+            # (`copy._grad`, `var._ops.add`), which a behaviour-preserving rename changes.  Second chance: compare with the function's
+            # local names abstracted away.  Each listed finding absorbs at most one violation this way, so a second, different store of
+            # the same shape in the same function is still reported.
+            names = _local_names(run, v.function)
+            if names:
+                av = _abstract(v.construct, names)
+                for i, k in enumerate(known):
+                    if i in used_known or k.get("rule") != v.rule or k.get("function") != v.function:
+                        continue
+                    if any(o.construct == k.get("construct") for o in violations):
+                        continue  # that finding is present under its own spelling
+                    if _abstract_any(k.get("construct", "")) == _abstract_any(av) and _shape(k.get("construct", "")) == _shape(v.construct):
+                        m = i
+                        break
+        if m is None:
+            unlisted.append(v)
+        else:
+            used_known.add(m)
+            listed.append((v, known[m]))
+
+    return listed, unlisted
+
+
+def blind_rules(run: Run) -> List[str]:
+    """rules that matched fewer instances than their floor (and do not already report a violation)"""
+    per_rule: Dict[str, int] = {}
+    for o in run.obligations:
+        per_rule[o.rule] = per_rule.get(o.rule, 0) + 1
+    failing_rules = {o.rule for o in run.obligations if not o.ok}
+    out = []
+    for rid, fl in run.floors.items():
+        if per_rule.get(rid, 0) < fl and rid not in failing_rules and not any(rid.replace("R", "r").replace(".", "_") in e for e in run.analysis_errors):
+            out.append(f"rule {rid} matched {per_rule.get(rid, 0)} instance(s), below its floor {fl}: "
+                       f"the rule has gone blind on this tree (anchors moved?)")
+    return out
+
+
+def verdict(run: Run):
+    """what the check would say about this tree: (set of unlisted violation keys, list of analysis errors incl. blind rules)"""
+    listed, unlisted = triage(run)
+    return {(o.rule, o.function, o.construct): o.fact for o in unlisted}, list(run.analysis_errors) + blind_rules(run)
+
+
 def finish(run: Run, seed: int = 0, selftest: Optional[dict] = None) -> int:
     """Match violations against known findings, write evidence, print the verdict lines.
     Returns the process exit code."""
@@ -139,21 +230,8 @@ def finish(run: Run, seed: int = 0, selftest: Optional[dict] = None) -> int:
             run.analysis_errors.append(f"rule {rid} matched {per_rule.get(rid, 0)} instance(s), below its floor {fl}: "
                                        f"the rule has gone blind on this tree (anchors moved?)")
 
+    listed, unlisted = triage(run)
     violations = [o for o in run.obligations if not o.ok]
-    listed, unlisted = [], []
-    used_known = set()
-    for v in violations:
-        m = None
-        for i, k in enumerate(known):
-            if k.get("rule") == v.rule and k.get("function") == v.function and k.get("construct") == v.construct:
-                m = i
-                break
-        if m is None:
-            unlisted.append(v)
-        else:
-            used_known.add(m)
-            listed.append((v, known[m]))
-
     ev_dir = os.path.join(VERIF, "evidence")
     os.makedirs(os.path.join(ev_dir, "replay"), exist_ok=True)
     lines = []
